@@ -817,3 +817,47 @@ func enumerate(t *testing.T, c *Case, wo *WorkerOut) []*Case {
 	wo.Probes["enumerated-storage-events"] += n
 	return cases
 }
+
+// TestSelfDeterminism: for several properties, N seeds are executed in three
+// fresh processes at GOMAXPROCS 1, 4 and 16 and the event-log hashes compared.
+func TestSelfDeterminism(t *testing.T) {
+	if os.Getenv("VERIF_SELFTEST") == "" {
+		t.Skip("no VERIF_SELFTEST")
+	}
+	n := envInt("VERIF_SELFTEST_N", 40)
+	tmp, _ := os.MkdirTemp("", "verif-det-")
+	defer os.RemoveAll(tmp)
+	bad, total := 0, 0
+	for _, prop := range []string{"C01", "C03", "C04", "C05", "C07", "C08", "C09", "C10", "C11", "C14", "C17", "C18", "C19"} {
+		var seeds []uint64
+		for i := 0; i < n; i++ {
+			seeds = append(seeds, 424200+uint64(i)*7)
+		}
+		var outs []*WorkerOut
+		for i, gmp := range []int{1, 4, 16} {
+			job := workerJob{Prop: prop, Seeds: seeds, Out: filepath.Join(tmp, fmt.Sprintf("%s-%d.json", prop, i)), Deadline: time.Now().Add(time.Hour).UnixMilli()}
+			wo, err := spawnWorker(job, gmp)
+			if err != nil {
+				fmt.Println("TROUBLE:", err)
+				os.Exit(2)
+			}
+			outs = append(outs, wo)
+		}
+		pb := 0
+		for _, s := range seeds {
+			k := fmt.Sprint(s)
+			total++
+			if outs[0].SeedHash[k] != outs[1].SeedHash[k] || outs[0].SeedHash[k] != outs[2].SeedHash[k] {
+				pb++
+				fmt.Printf("DIVERGED %s seed %d: %016x %016x %016x\n", prop, s, outs[0].SeedHash[k], outs[1].SeedHash[k], outs[2].SeedHash[k])
+			}
+		}
+		fmt.Printf("selftest determinism %s: %d seeds x GOMAXPROCS{1,4,16}: %d diverged\n", prop, len(seeds), pb)
+		bad += pb
+	}
+	fmt.Printf("selftest determinism: %d seed/property pairs, %d diverged\n", total, bad)
+	if bad > 0 {
+		os.Exit(2)
+	}
+	os.Exit(0)
+}
